@@ -3,7 +3,8 @@
     `encImpl`   responses/dods.py  (`_basetype`, `_structuretype`, `_sequencetype` flat + nested paths)
     `calcSize`  responses/dods.py  `calculate_size`
     `decImpl`   handlers/dap.py    (`unpack_dap2_data`/`unpack_children`, `unpack_sequence` simple +
-                                    general paths, `convert_stream_to_list`), reading from a `BytesReader`
+                                    general paths, `convert_stream_to_list`), reading from the strict `BytesReader`
+                                    (lib.py, fix 72d8e7c: `read(n)` raises when fewer than n bytes remain)
     `splitBody` handlers/dap.py    `safe_dds_and_data`  (`raw.split(b"\nData:\n", 1)`)
   Widths, dtype chars and markers are looked up in `Pydap.Gen` (regenerated from lib.py on every run).
 -/
